@@ -45,7 +45,9 @@ def gen_case(rng, cid, max_len=3, max_depth=2, allow=None, short_prob=0.0,
         w = sg.min_samples(top)
         order, mode = sg.gen_layout(rng, w, short_prob=short_prob,
                                     max_eps=max_eps if ep else 1,
-                                    many=True if (ep and max_eps >= 3 and cid % 40 == 7) else None)
+                                    many=True if (ep and max_eps >= 3 and cid % 40 == 7) else None,
+                                        # the fixed pool of pipelines meets non-contiguous arrangements whatever the random stream does
+                                        mode=(['interleave', 'shuffleblocks', 'interleave', 'desc'][cid % 4] if cid < len(_direct.CHAIN_POOL) else None))
         if not ep:
             order = [0] * len(order)
         X = sg.gen_data(rng, order, ns, nu, ep, tagged=tagged)
